@@ -525,8 +525,27 @@ namespace c15
             VF_CHECK(std::fabs(a - b) <= 1e-9 * (std::fabs(a) + std::fabs(b)) + 1e-9 * mg[size_t(i)] / double(s.md.hmin), "hessian of basis function " << i << " is not symmetric: " << a << " vs " << b);
           }
         }
+        // the evaluator must return the same numbers whatever subset of {value, grad, hess} the caller asks for (a
+        // Hessian-only or gradient-only configuration goes through other branches of the configuration traits)
+        ev.at(xi);
+        {
+          const double hs = 1.0 / double(s.md.hmin);
+          restricted<SpaceTags::value>(s, cell, xi, [&](const auto& sd) { for(int i = 0; i < n; ++i) VF_CHECK(std::fabs(double(sd.phi[i].value) - double(ev.sd.phi[i].value)) <= 1e-12 * (mv[size_t(i)] + 1e-300), "value-only configuration: basis function " << i << " on cell " << cell << " = " << double(sd.phi[i].value) << ", with value|grad|hess " << double(ev.sd.phi[i].value)); });
+          restricted<SpaceTags::grad>(s, cell, xi, [&](const auto& sd) { for(int i = 0; i < n; ++i) for(int k = 0; k < dim; ++k) VF_CHECK(std::fabs(double(sd.phi[i].grad[k]) - ev.grad(i, k)) <= 1e-11 * (mg[size_t(i)] + mv[size_t(i)] * hs + 1e-300), "gradient-only configuration: d_" << k << " of basis function " << i << " on cell " << cell << " = " << double(sd.phi[i].grad[k]) << ", with value|grad|hess " << ev.grad(i, k)); });
+          if constexpr(HESS_)
+            restricted<SpaceTags::hess>(s, cell, xi, [&](const auto& sd) { for(int i = 0; i < n; ++i) for(int k = 0; k < dim; ++k) for(int l = 0; l < dim; ++l) VF_CHECK(std::fabs(double(sd.phi[i].hess(k, l)) - ev.hess(i, k, l)) <= 1e-10 * ((mg[size_t(i)] + mv[size_t(i)] * hs) * hs + std::fabs(ev.hess(i, k, l)) + 1e-300), "hessian-only configuration: d_" << k << "d_" << l << " of basis function " << i << " on cell " << cell << " = " << double(sd.phi[i].hess(k, l)) << ", with value|grad|hess " << ev.hess(i, k, l)); });
+        }
         ev.finish();
       }
+    }
+
+    /// evaluates the basis at one point with a restricted space configuration (own evaluator objects) and hands the data to fn
+    template<SpaceTags cfg_, typename Fn_> static void restricted(Setup& s, Index cell, const double* xi, Fn_&& fn)
+    {
+      typedef Assembly::AsmTraits1<double, Space_, TrafoTags::none, cfg_> ATR;
+      typename ATR::TrafoEvaluator te(s.trafo); typename ATR::SpaceEvaluator se(s.space); typename ATR::TrafoEvalData td; typename ATR::SpaceEvalData sd;
+      typename ATR::DomainPointType p; for(int j = 0; j < dim; ++j) p[j] = xi[j];
+      te.prepare(cell); se.prepare(te); te(td, p); se(sd, td); fn(sd); se.finish(); te.finish();
     }
 
     // --------------------------------------------------------------------------------------------
